@@ -119,6 +119,38 @@ def allTypesPre (ast : AidlFile) : List Ty := (topTypes ast).flatMap Ty.preorder
 /-- every type node of the file at any depth, in the order of `walk_types` -/
 def allTypesWalk (ast : AidlFile) : List Ty := (topTypes ast).flatMap Ty.walkOrder
 
+/-! ### the two walk orders visit the same nodes -/
+
+mutual
+theorem Ty.mem_walkOrder_of_preorder (u : Ty) : (t : Ty) → u ∈ Ty.preorder t → u ∈ Ty.walkOrder t
+  | .mk n k g sy fu => by
+    intro h
+    simp only [Ty.preorder, List.mem_cons] at h
+    simp only [Ty.walkOrder]
+    split
+    · rcases h with h | h
+      · exact List.mem_append.mpr (Or.inr (by simp [h]))
+      · exact List.mem_append.mpr (Or.inl (Ty.mem_walkOrderList_of_preorderList u g h))
+    · rcases h with h | h
+      · exact List.mem_cons.mpr (Or.inl h)
+      · exact List.mem_cons.mpr (Or.inr (Ty.mem_walkOrderList_of_preorderList u g h))
+theorem Ty.mem_walkOrderList_of_preorderList (u : Ty) : (l : List Ty) → u ∈ Ty.preorderList l → u ∈ Ty.walkOrderList l
+  | [] => by simp [Ty.preorderList]
+  | t :: ts => by
+    intro h
+    simp only [Ty.preorderList, List.mem_append] at h
+    simp only [Ty.walkOrderList, List.mem_append]
+    rcases h with h | h
+    · exact Or.inl (Ty.mem_walkOrder_of_preorder u t h)
+    · exact Or.inr (Ty.mem_walkOrderList_of_preorderList u ts h)
+end
+
+theorem mem_allTypesWalk_of_pre (ast : AidlFile) (u : Ty) (h : u ∈ allTypesPre ast) : u ∈ allTypesWalk ast := by
+  unfold allTypesPre at h
+  unfold allTypesWalk
+  obtain ⟨t, ht, hu⟩ := List.mem_flatMap.mp h
+  exact List.mem_flatMap.mpr ⟨t, ht, Ty.mem_walkOrder_of_preorder u t hu⟩
+
 theorem foldl_flatMap_foldl {α β σ} (g : α → List β) (f : σ → β → σ) (s : σ) (l : List α) :
     l.foldl (fun s x => (g x).foldl f s) s = (l.flatMap g).foldl f s := by
   induction l generalizing s with
